@@ -17,6 +17,8 @@ SHRINK_SECONDS = 30.0
 def leaf(rng, neg, pal):
     pre = "AnyBut" if neg else "Any"
     k = rng.random()
+    if k < 0.06:
+        return cc.shorthand_leaf(rng, neg)
     if k < 0.4:
         return [pre + "From"] + [cc.arg(rng, pal) for _ in range(rng.randint(1, 5))]
     if k < 0.72:
